@@ -7,6 +7,7 @@ import shutil
 import signal
 import subprocess
 import sys
+import atexit
 import tempfile
 import time
 import traceback
@@ -57,12 +58,30 @@ class RunResult:
         return bool(self.recs) and self.recs[-1].get("t") == "end"
 
 
+_CWD = {}
+
+
+def _default_cwd():
+    d = _CWD.get(os.getpid())
+    if d is None and _CWD.get("worker") and os.path.isdir(_CWD["worker"]):
+        return _CWD["worker"]
+    if d is None or not os.path.isdir(d):
+        d = tempfile.mkdtemp(prefix="vf_cwd_")
+        _CWD.clear()
+        _CWD[os.getpid()] = d
+        atexit.register(shutil.rmtree, d, ignore_errors=True)
+    return d
+
+
 def run_case(case_text, variant="rel", timeout=120, cwd=None, extra_env=None, binary=None):
     env = dict(ENV_BASE)
     if extra_env:
         env.update(extra_env)
     exe = binary or BIN[variant]
     timed_out = False
+    if cwd is None:
+        # some biases write files named after an empty output prefix into the working directory: never into /verif
+        cwd = _default_cwd()
     try:
         p = subprocess.run([exe, "-", "-"], input=case_text.encode("utf-8", "surrogateescape"),
                            stdout=subprocess.PIPE, stderr=subprocess.PIPE, env=env, cwd=cwd,
@@ -150,14 +169,17 @@ def _worker(args):
           "discards": 0, "failure": None, "exc": None}
     workdir = tempfile.mkdtemp(prefix="vf_%s_" % mod.ID)
     ctx = {"tier": tier, "workdir": workdir, "widx": widx}
+    _CWD["worker"] = os.path.join(workdir, "cwd")   # removed with the work directory (workers exit without atexit)
+    os.makedirs(_CWD["worker"], exist_ok=True)
 
     shrink_budget = [250]
+    shrink_deadline = [None]
 
     def one(spec):
         if st["failure"] is not None:
-            # shrinking phase: bounded number of further evaluations (a budget hit keeps the best failure found so far)
+            # shrinking phase: bounded number of further evaluations and of seconds (a budget hit keeps the best failure so far)
             shrink_budget[0] -= 1
-            if shrink_budget[0] < 0:
+            if shrink_budget[0] < 0 or time.time() > shrink_deadline[0]:
                 return
         st["evals"] += 1
         out = checkfn(spec, ctx)
@@ -170,6 +192,10 @@ def _worker(args):
             if out.sig in known:
                 st["known_hits"][out.sig] = st["known_hits"].get(out.sig, 0) + 1
                 return
+            if st["failure"] is None:
+                shrink_deadline[0] = time.time() + 180.0
+                if out.sig.endswith("_hang"):
+                    shrink_budget[0] = 0          # every evaluation of a hanging case costs the full time limit
             st["failure"] = {"spec": spec, "msg": out.msg, "sig": out.sig, "case": out.case_text,
                              "part": part}
             raise Violation(out.msg)
@@ -269,6 +295,15 @@ def run_property(mod, tier, seed, nworkers=16):
 
     # confirm failures by replaying 3x, save replay files
     confirmed = []
+    # one failure per signature is confirmed and reported (sixteen workers usually find the same thing)
+    seen_sigs = set()
+    uniq = []
+    for f in failures:
+        if f["sig"] in seen_sigs:
+            continue
+        seen_sigs.add(f["sig"])
+        uniq.append(f)
+    failures = uniq
     for f in failures:
         sub = mod.PARTS[f["part"]]
         if "check" in sub and f.get("spec") is not None:
